@@ -487,6 +487,7 @@ func ruleMigrateRound2(c *Ctx) {
 		ruleNoImportForSkippedFields(c, "C14.8", ruleImportSnapshotLast(c, "C14.7"))
 		ruleMigrateRendererFidelity(c, "C14.9")
 		rulePackageMismatchRefused(c, "C14.10")
+		ruleLoopsMakeProgress(c, "C14.12", migPkg)
 		ruleInspectVisitsEverything(c, "C14.11")
 	}
 	if c.Prop == "C13" {
